@@ -21,6 +21,8 @@ import NeoModel.Proofs.MptRcFlush
 import NeoModel.Proofs.MptRcExact
 import NeoModel.Proofs.MptRcRun
 import NeoModel.Proofs.MptRcRead
+import NeoModel.Proofs.MptRcRestore
+import NeoModel.Proofs.MptRcPerm
 namespace NeoModel.C11
 open NeoModel.Mpt NeoModel.MptRc
 
@@ -55,6 +57,16 @@ theorem refcount_map_exact (H : Bytes → Bytes) (m : RcMap) (evs : Evs) (hn : (
     (k : Bytes) :
     dlt (applyEvs H m evs) k = dlt m k + net (hP H k) evs ∧ ini (applyEvs H m evs) k = ini m k :=
   (applyEvs_spec H evs m hn hok).2.2 k
+
+/-- C11.1f the refcount map is a Go map iterated in random order by `Flush` (trie.go:416): for any
+two orders of the same entries, if no entry hits the negative-count panic, `Flush` succeeds for both
+and leaves the same record under every hash and the same map entry for every hash. -/
+theorem flush_order_irrelevant (mode : Mode) (idx : Nat) (m1 m2 : RcMap) (hp : m1.Perm m2)
+    (hn : (mkeys m1).Nodup) (s : Store)
+    (hok : ∀ k e, mget m1 k = some e → estep mode idx (sget s k) e ≠ none) :
+    ∃ r1 r2, flush mode idx m1 s = some r1 ∧ flush mode idx m2 s = some r2 ∧
+      ∀ k, sget r1.2 k = sget r2.2 k ∧ mget r1.1 k = mget r2.1 k :=
+  MptRc.flush_order_irrelevant mode idx m1 m2 hp hn s hok
 
 -- non-vacuity: the leaf `aa` occurs twice; deleting one key drops exactly one occurrence and the
 -- events say so; a batch that re-creates it brings it back
@@ -108,6 +120,19 @@ example (H : Bytes → Bytes) : ∃ s, runOps H { mode := .latest }
       | some c => ∃ b, c = .rc b true (occH H s.root h) ∧ 0 < occH H s.root h ∧ H b = h :=
   latest_exact H _ (by simp [Heights])
 
+/-- C11.2b state-sync restore (billet.go:150-210): handing every (node, path) of a trie `t` to
+`RestoreHashNode` once — the contract of the MPT pool — into an empty store leaves the store exact
+for `t`: count = occurrences, every record active with a positive count and bytes hashing to its key. -/
+theorem restore_exact (H : Bytes → Bytes) (mode : Mode) (hrc : mode.rc = true) (t : Node) :
+    (∀ h, activeCnt (restoreAll H mode [] t) h = occH H t h) ∧
+    (∀ h c, sget (restoreAll H mode [] t) h = some c → ∃ b n, c = .rc b true n ∧ 0 < n ∧ H b = h) := by
+  obtain ⟨ha, _⟩ := restore_fold H mode hrc (positions t) [] (fun h c hc => by simp [sget] at hc)
+  exact ⟨(restore_exact_store H mode hrc t).count, ha⟩
+
+-- non-vacuity: the trie with the leaf `aa` at two positions; its record carries count 2
+set_option maxRecDepth 100000 in
+example : activeCnt (restoreAll toyH .latest [] exT) (hash toyH (.leaf [0xaa])) = 2 := by decide
+
 /-! ## 3. ModeGC: retained roots stay complete; GC removes only what no retained root needs -/
 
 /-- C11.3a: in ModeGC, for every history (blocks with increasing heights, `GC(g)` at any heights,
@@ -130,6 +155,26 @@ theorem gc_mode_exact (H : Bytes → Bytes) (ops : List Op) (hh : Heights none o
     cases a with
     | true => exact Or.inl ⟨b, n, rfl, hsh⟩
     | false => exact Or.inr ⟨b, n, rfl⟩
+
+/-- C11.3a' "present and decodable": in the situation of `gc_mode_exact`, for every retained height
+the store holds, under the hash of each of that trie's node encodings, a record with exactly those
+bytes (which `decodeTop` decodes back to the node: C10 `decodeTop_enc`) — provided `H` has no
+collision among the stored byte strings and that trie's node encodings. -/
+theorem retained_nodes_present (H : Bytes → Bytes) (ops : List Op) (hh : Heights none ops)
+    (s : St) (hr : runOps H { mode := .gc } ops = some s)
+    (e : Nat × Node) (he : e ∈ s.hist) (hge : s.gcAt ≤ e.1)
+    (hcf : CollFree H (storeBytes s.store ++ nodeEncs H e.2)) :
+    ∀ x ∈ nodeEncs H e.2, ∃ c, sget s.store (H x) = some c ∧ c.bytes = x := by
+  obtain ⟨s', top, hr', hinv⟩ := run_inv H .gc rfl ops none _ (inv_init H .gc) hh
+  rw [hr] at hr'; cases hr'
+  intro x hx
+  have hk := hinv.kept rfl e he hge (H x) (occH_pos_of_mem_nodeEncs H e.2 x hx)
+  cases hs : sget s.store (H x) with
+  | none => rw [hs] at hk; exact hk.elim
+  | some c =>
+    refine ⟨c, rfl, ?_⟩
+    exact hcf _ (List.mem_append_left _ (bytes_mem_of_sget hs)) _ (List.mem_append_right _ hx)
+      (hinv.exact.bytes _ _ hs)
 
 /-- C11.3b what `GC(g)` does, per record: an inactive record whose height is `≤ g` disappears;
 every other record (active, or inactive since a later height) is left exactly as it was. -/
